@@ -4,3 +4,7 @@ import MpsProps.Src.SrcCmpConfig
 import MpsProps.Src.SrcCmpKeygen
 import MpsProps.Src.SrcFrostKeygen
 import MpsProps.Src.SrcDoernerKeygen
+import MpsProps.Src.SrcLInternalRound
+import MpsProps.Src.SrcLPkgParty
+import MpsProps.Src.SrcLPkgMathPolynomial
+import MpsProps.Src.SrcLPkgHash
